@@ -16,6 +16,7 @@ CONSTANTS
   MaxTicks = 0
   MaxClears = 1
   MaxWaits = 1
+  MaxDirect = 1
   MaxSetNames = 0
 INVARIANT Emit
 INVARIANT GenInv
